@@ -1,0 +1,7 @@
+//go:build verif
+
+package ean
+
+// Hook for the verification harness in /verif (build tag `verif` only).
+
+func VerifCalcCheckNum(code string) rune { return calcCheckNum(code) }
